@@ -37,6 +37,18 @@ CHECKS = {
    tech='property-based testing: generated decks x option combinations, strict-reader validity predicate over the written file; fixed corpus replay of the shipped decks',
    text='Decks from all generators (biased toward pruning interactions: empty fillers, unions of empties, duplicate / unused / flagged surfaces) are converted under every option combination; the written file is parsed by a strict reader of the emitted dialect and must satisfy one validity clause per sentence of the statement.',
    note='Trusted: the harness reader encodes the dialect the writer emits; a crash on a generated (valid) deck is reported in a separate bucket.'),
+ 'C09': dict(cat='exploration', ref='5/C09',
+   tech='property-based differential testing: generated hierarchies with material/density palettes and spelling families; GEOMCOMP joined with the geometry evaluator',
+   text='For every decided point the composition assigned to its volume must name the material and (numerically) the density of the owning lowest-level cell, m0 for void owners; spellings of one family share a composition, numerically different densities never do; includes lattices filled with their own universe and LIKE-BUT overrides.',
+   note='Trusted: owner = filler at the lowest level; only the two spelling families named by the statement are asserted.'),
+ 'C10': dict(cat='exploration', ref='5/C10',
+   tech='property-based testing: generated material cards and densities against an independent periodic table and composition formulae',
+   text='Generated material cards (any Z 1-118, A 000-299, suffixes, keyword entries, fraction spellings, both signs, mixed signs) with mass and atom densities; the written COMPOSITION block is compared nuclide by nuclide and amount by amount with the expected block; mixed signs must raise.',
+   note='Trusted: harness periodic table and T4 block layout; numeric comparison at 1e-12 relative.'),
+ 'C11': dict(cat='exploration', ref='5/C11',
+   tech='exhaustive enumeration of small expression trees x spellings plus Hypothesis random trees; truth-table oracle over all 2^n sense assignments',
+   text='Every expression tree with <= 3 leaves (quick) / <= 4 leaves (thorough) over a small leaf alphabet is enumerated in several spellings, and larger random trees are generated; the truth table of the generator tree must equal that of the AST returned by get_ast on the geometry extracted by cellcard.split, and that of the tree after pot_complement (which must be complement-free).',
+   note='Trusted: MCNP operator semantics; the sub-domain <= N leaves is enumerated completely, the rest is sampled.'),
 }
 
 PENDING = {}
